@@ -133,7 +133,9 @@ class TaskGenerator:
             try:
                 simp = next(iter(mutations))
                 assert isinstance(simp, Simplification)
-                fresh_vars.extend(simp.fresh_vars)
+                # the same declaration may be requested for several nodes
+                fresh_vars.extend(v for v in simp.fresh_vars
+                                  if v not in fresh_vars)
                 substs.update(simp.substs)
             except StopIteration:
                 continue
